@@ -1,10 +1,218 @@
-(* C04 — Certificate issuance round-trips through parsing.  Property theorems only. *)
-From Coq Require Import List NArith ZArith Bool Arith.
-From Verif Require Import Harness DerTree DerPrim.
-From VerifModel Require Import C04.
-From VerifProof Require Import C04Proofs.
-Import ListNotations.
+(* C04 — Certificate issuance round-trips through parsing.
+   Property theorems only; each is closed by [exact] of a lemma from
+   lib/DerTree.v, lib/DerPrim.v, proof/C04Proofs.v or proof/C04Top.v.
 
-Theorem C04_ski_roundtrip : forall id, read_ski (build_ski id) = Some id.
+   Model: model/C04.v — build_tbs / build_extensions mirror CreateCertificate /
+   buildExtensions on DER value trees, parse_cert / read_tbs / step_ext mirror
+   ParseCertificate / parseCertificate.  [via read d] is "asn1.Unmarshal the
+   extension value emit d, then run the extension's branch of the parser". *)
+From Coq Require Import List NArith ZArith Bool Arith Permutation.
+From Verif Require Import Harness DerTree DerPrim.
+From VerifGen Require Import C04_gen.
+From VerifModel Require Import C04.
+From VerifProof Require Import C04Proofs C04Top.
+Import ListNotations.
+Local Open Scope N_scope.
+
+(* ---- DER layer ---- *)
+Theorem C04_der_parse_emit : forall d rest, wfb d = true -> parse (emit d ++ rest) = Some (d, rest).
+Proof. exact parse_emit. Qed.
+Print Assumptions C04_der_parse_emit.
+
+Theorem C04_der_parse_wf : forall bs d rest, parse bs = Some (d, rest) -> wfb d = true.
+Proof. exact parse_wf. Qed.
+Print Assumptions C04_der_parse_wf.
+
+Theorem C04_integer_roundtrip : forall z, dec_int (enc_int z) = Some z.
+Proof. exact dec_enc_int. Qed.
+Print Assumptions C04_integer_roundtrip.
+
+Theorem C04_oid_roundtrip : forall o bs, wf_oid o = true -> enc_oid o = Some bs -> dec_oid bs = Some o.
+Proof. exact dec_enc_oid. Qed.
+Print Assumptions C04_oid_roundtrip.
+
+(* validity to the second, UTCTime inside 1950..2049 and GeneralizedTime outside *)
+Theorem C04_time_roundtrip : forall c tag bs,
+  valid_civil c = true -> enc_time c = Some (tag, bs) -> dec_time tag bs = Some c.
+Proof. exact dec_enc_time. Qed.
+Print Assumptions C04_time_roundtrip.
+
+(* ---- one theorem per extension ---- *)
+Theorem C04_ku_roundtrip : forall ku, 0 < ku < 512 -> via read_ku (build_ku ku) = Some ku.
+Proof. exact ku_roundtrip. Qed.
+Print Assumptions C04_ku_roundtrip.
+
+Theorem C04_eku_roundtrip : forall ekus unknown d,
+  build_eku ekus unknown = Some d ->
+  forallb wf_oid unknown = true ->
+  (forall o, In o unknown -> eku_of_oid o = None) ->
+  via read_eku d = Some (ekus, unknown).
+Proof. exact eku_roundtrip. Qed.
+Print Assumptions C04_eku_roundtrip.
+
+(* every constant the builder knows is read back as the same constant
+   (finite: the regenerated tables) *)
+Theorem C04_eku_tables_agree : forall e o, eku_oid e = Some o -> wf_oid o = true /\ eku_of_oid o = Some e.
+Proof. exact eku_oid_spec. Qed.
+Print Assumptions C04_eku_tables_agree.
+
+Theorem C04_bc_roundtrip : forall isca mpl zero,
+  (-1 <= mpl < 2 ^ 55)%Z ->
+  via read_bc (build_bc isca mpl zero) = Some (isca, eff_pathlen mpl zero).
+Proof. exact bc_roundtrip. Qed.
+Print Assumptions C04_bc_roundtrip.
+
+(* MaxPathLen 0 without MaxPathLenZero means "no limit" (-1); with it, 0 *)
+Theorem C04_bc_pathlen_cases : forall mpl zero,
+  eff_pathlen mpl zero = if (mpl =? 0)%Z then (if zero then 0%Z else (-1)%Z) else mpl.
+Proof. exact eff_pathlen_cases. Qed.
+Print Assumptions C04_bc_pathlen_cases.
+
+Theorem C04_ski_roundtrip : forall id, via read_ski (build_ski id) = Some id.
 Proof. exact ski_roundtrip. Qed.
 Print Assumptions C04_ski_roundtrip.
+
+Theorem C04_aki_roundtrip : forall id, via read_aki (build_aki id) = Some id.
+Proof. exact aki_roundtrip. Qed.
+Print Assumptions C04_aki_roundtrip.
+
+Theorem C04_aia_roundtrip : forall ocsp issuers d,
+  build_aia ocsp issuers = Some d -> via read_aia d = Some (ocsp, issuers).
+Proof. exact aia_roundtrip. Qed.
+Print Assumptions C04_aia_roundtrip.
+
+Theorem C04_san_roundtrip : forall dns emails ips,
+  forallb ip_len_ok ips = true ->
+  via read_san (build_san dns emails ips) = Some (dns, emails, map san_ip ips).
+Proof. exact san_roundtrip. Qed.
+Print Assumptions C04_san_roundtrip.
+
+(* an IPv4 address comes back in 4 bytes whichever form the template held *)
+Theorem C04_san_ip4_in_16 : forall a b c d,
+  san_ip [a; b; c; d] = [a; b; c; d] /\ san_ip (v4_in_v6_prefix ++ [a; b; c; d]) = [a; b; c; d].
+Proof. exact san_ip_v4. Qed.
+Print Assumptions C04_san_ip4_in_16.
+
+Theorem C04_policies_roundtrip : forall ps d,
+  build_policies ps = Some d -> forallb wf_oid ps = true -> via read_policies d = Some ps.
+Proof. exact policies_roundtrip. Qed.
+Print Assumptions C04_policies_roundtrip.
+
+Theorem C04_crldp_roundtrip : forall dps, via read_crldp (build_crldp dps) = Some dps.
+Proof. exact crldp_roundtrip. Qed.
+Print Assumptions C04_crldp_roundtrip.
+
+(* names: every RDN comes back as a permutation of itself (DER SET OF is
+   sorted), single-valued RDNs unchanged *)
+Theorem C04_name_roundtrip : forall n d, wf_name n = true -> build_name n = Some d ->
+  exists n', read_name d = Some n' /\ name_rel n n' /\ wfb d = true.
+Proof. exact name_roundtrip. Qed.
+Print Assumptions C04_name_roundtrip.
+
+Theorem C04_name_single_valued : forall n n',
+  name_rel n n' -> Forall (fun r => (length r <= 1)%nat) n -> n' = n.
+Proof. exact name_rel_singletons. Qed.
+Print Assumptions C04_name_single_valued.
+
+Theorem C04_nc_roundtrip : forall perm excl d,
+  wf_ncset perm = true -> wf_ncset excl = true -> build_nc perm excl = Some d ->
+  exists p' e', via read_nc d = Some (p', e') /\ ncset_rel perm p' /\ ncset_rel excl e'.
+Proof. exact nc_roundtrip. Qed.
+Print Assumptions C04_nc_roundtrip.
+
+(* defect 20, repaired: an IPv4 range with a 16-byte address and a 4-byte mask *)
+Theorem C04_nc_ip4_in_16 : forall a b c d mask, length mask = 4%nat ->
+  norm_ipnet (v4_in_v6_prefix ++ [a; b; c; d], mask) = ([a; b; c; d], mask) /\
+  norm_ipnet ([a; b; c; d], mask) = ([a; b; c; d], mask).
+Proof. exact norm_ipnet_v4_in_16. Qed.
+Print Assumptions C04_nc_ip4_in_16.
+
+Theorem C04_nc_ip_same_length : forall ip mask,
+  length ip = length mask -> (length ip = 4%nat \/ length ip = 16%nat) ->
+  norm_ipnet (ip, mask) = (ip, mask) /\ ipnet_ok (ip, mask) = true.
+Proof. exact norm_ipnet_same_len. Qed.
+Print Assumptions C04_nc_ip_same_length.
+
+(* the witness of defect 20 on the faithful model of the old code *)
+Theorem C04_defect20_witness :
+  let n := (v4_in_v6_prefix ++ [10; 0; 0; 0], [255; 0; 0; 0]) in
+  read_subtrees [subtree (Prim 2 7 (old_ip_and_mask n))] = None /\
+  read_subtrees [subtree (Prim 2 7 (ip_and_mask n))] = Some (ncset_add_ip ncset_nil ([10; 0; 0; 0], [255; 0; 0; 0])).
+Proof. exact defect20_witness. Qed.
+Print Assumptions C04_defect20_witness.
+
+(* ---- signature algorithm: what the parser reports is what was requested ---- *)
+Theorem C04_sigalg_requested : forall k req alg,
+  req <> 0 -> signing_alg k req = Some alg -> sigalg_of alg = req.
+Proof. exact sigalg_requested_roundtrip. Qed.
+Print Assumptions C04_sigalg_requested.
+
+Theorem C04_sigalg_default : forall k alg, signing_alg k 0 = Some alg -> sigalg_of alg = default_sigalg k.
+Proof. exact sigalg_default_roundtrip. Qed.
+Print Assumptions C04_sigalg_default.
+
+(* ---- extra extensions ---- *)
+(* a generated extension is dropped when an extra extension carries its OID;
+   the extra extensions follow, verbatim *)
+Theorem C04_extra_overrides : forall t l, build_extensions t = Some l ->
+  exists g, l = g ++ t_extra t /\
+            (forall e, In e g -> oid_in_exts (ext_id e) (t_extra t) = false /\ In (ext_id e) known_oids).
+Proof. exact extra_overrides. Qed.
+Print Assumptions C04_extra_overrides.
+
+(* ---- the composed statement ---- *)
+Theorem C04_parse_build_fields : forall i tbs a,
+  wf_input i -> build_tbs i = Some (tbs, a) ->
+  let t := i_t i in
+  exists f,
+    read_tbs tbs = Some f /\ wfb tbs = true /\ wfb a = true /\
+    f_version f = 3%Z /\
+    f_serial f = t_serial t /\
+    f_sigalg f = expected_sigalg (i_key i) (t_sigalg t) /\
+    name_rel (i_issuer i) (f_issuer f) /\ name_rel (t_subject t) (f_subject f) /\
+    f_nb f = t_nb t /\ f_na f = t_na t /\
+    f_ku f = t_ku t /\ f_eku f = t_eku t /\ f_ueku f = t_ueku t /\
+    f_bcvalid f = t_bcvalid t /\
+    (t_bcvalid t = true ->
+       f_isca f = t_isca t /\ f_mpl f = eff_pathlen (t_mpl t) (t_mplzero t) /\
+       f_mplzero f = (eff_pathlen (t_mpl t) (t_mplzero t) =? 0)%Z) /\
+    f_ski f = t_ski t /\ f_aki f = t_aki t /\
+    f_ocsp f = t_ocsp t /\ f_issuing f = t_issuing t /\
+    f_dns f = t_dns t /\ f_emails f = t_emails t /\ f_ips f = map san_ip (t_ips t) /\
+    f_policies f = t_policies t /\
+    ncset_rel (t_perm t) (f_perm f) /\ ncset_rel (t_excl t) (f_excl f) /\
+    (nc_empty (t_perm t) && nc_empty (t_excl t) = false -> f_nc_crit f = t_nc_crit t) /\
+    f_crldp f = t_crldp t /\
+    exists g, f_exts f = g ++ t_extra t /\ Forall (fun e => In (ext_id e) known_oids) g.
+Proof. exact parse_build_fields. Qed.
+Print Assumptions C04_parse_build_fields.
+
+(* ParseCertificate on the bytes CreateCertificate returns = reading the tree built *)
+Theorem C04_parse_cert_of_build : forall i sig der,
+  wf_input i -> build_cert i sig = Some der ->
+  exists tbs a, build_tbs i = Some (tbs, a) /\ parse_cert der = read_tbs tbs.
+Proof. exact parse_cert_of_build. Qed.
+Print Assumptions C04_parse_cert_of_build.
+
+(* the verifier is handed the algorithm the signer used; the signature scheme's
+   own correctness is the premise [sign_verify] *)
+Theorem C04_issued_sig_verifies :
+  forall (sign : keykind -> N -> bytes -> bytes) (verify : keykind -> N -> bytes -> bytes -> bool),
+  (forall k alg msg, verify k alg msg (sign k alg msg) = true) ->
+  forall i tbs a f,
+    wf_input i -> build_tbs i = Some (tbs, a) -> read_tbs tbs = Some f ->
+    verify (i_key i) (f_sigalg f) (emit tbs)
+           (sign (i_key i) (expected_sigalg (i_key i) (t_sigalg (i_t i))) (emit tbs)) = true.
+Proof. exact issued_sig_verifies. Qed.
+Print Assumptions C04_issued_sig_verifies.
+
+(* ---- non-vacuity ---- *)
+Theorem C04_nonvacuous_domain : wf_input ex_input.
+Proof. exact ex_wf. Qed.
+Print Assumptions C04_nonvacuous_domain.
+
+Theorem C04_nonvacuous_builds : exists tbs a f, build_tbs ex_input = Some (tbs, a) /\ read_tbs tbs = Some f /\
+  f_ips f = [[10; 1; 2; 3]] /\ nc_ip (f_perm f) = [([10; 0; 0; 0], [255; 0; 0; 0])] /\
+  f_mpl f = 0%Z /\ f_mplzero f = true /\ length (f_exts f) = 11%nat.
+Proof. exact ex_builds. Qed.
+Print Assumptions C04_nonvacuous_builds.
